@@ -48,7 +48,7 @@ def build():
     requires old(w).pending_clean.len() == 0, !old(w).hooks_ok, !old(w).cert_written, old(w).cur_auth is None, old(w).downloaded is None,
     ensures
         // success is reported only after the downloaded certificate has been written next to the key
-        r is Ok ==> final(w).cert_written, //@C07.success_only_after_the_certificate_is_installed
+        r is Ok ==> final(w).cert_written, //@C07.success_only_after_the_certificate_is_installed,C02.success_only_after_the_certificate_is_installed
         // every validated challenge has been followed by its clean hooks
         r is Ok ==> final(w).pending_clean.len() == 0, //@C10.every_validated_challenge_is_cleaned
         // an attempt that fails has not touched the certificate file
